@@ -84,8 +84,9 @@ func (s *BadSmellListener) EnterClassDeclaration(ctx *ClassDeclarationContext) {
 
 func getTypeData(typ *TypeTypeContext) string {
 	var typeData string
-	classOrInterface := typ.ClassOrInterfaceType().(*ClassOrInterfaceTypeContext)
-	if classOrInterface != nil {
+	// a primitive type has no class or interface part
+	classOrInterface, ok := typ.ClassOrInterfaceType().(*ClassOrInterfaceTypeContext)
+	if ok && classOrInterface != nil {
 		identifiers := classOrInterface.AllIdentifier()
 		typeData = identifiers[len(identifiers)-1].GetText()
 	}
@@ -292,7 +293,8 @@ func countMethodIfSwitch(statement IBlockStatementContext, bsInfo *bs_domain.Fun
 }
 
 func (s *BadSmellListener) EnterAnnotation(ctx *AnnotationContext) {
-	if currentClzType == "Class" && ctx.QualifiedName().GetText() == "Override" {
+	// java.lang.@Nullable String: an annotation inside a qualified type name has no qualifiedName child
+	if currentClzType == "Class" && ctx.QualifiedName() != nil && ctx.QualifiedName().GetText() == "Override" {
 		currentClassBs.OverrideSize++
 	}
 }
